@@ -171,10 +171,11 @@ NEAR_MISS = ["tmp.rf@{s}.{f}.h5", "rf@{s}.{f}.hdf5", "rf@{s}.{f2}.h5", "rf{s}.{f
              "md@{s}.h5.bak", "rf@{s}.{f}.h5~"]
 
 
-def gen_tree(rng, big=False):
+def gen_tree(rng, big=False, base=None):
+    base = BASE if base is None else base
     entries = []
     chans = []
-    names = ["ch0", "ch1", "grp/chA", "grp/chB", "deep/er/ch", "ch0/metadata", "ch1/metadata", "legacy", "plain"]
+    names = ["ch0", "ch1", "grp/chA", "grp/chB", "deep/er/ch", "ch0/metadata", "ch1/metadata", "legacy", "plain", "ch10"]
     for name in rng.sample(names, rng.randrange(2, 6 if not big else 8)):
         kind = rng.choice(["drf", "drf", "dmd", "legacy", "none", "both"])
         if name.endswith("/metadata"):
@@ -193,7 +194,7 @@ def gen_tree(rng, big=False):
             entries.append({"p": name + "/dmd_properties.h5", "t": "f"})
         chans.append((name, kind))
         nsub = rng.randrange(0, 5)
-        t = BASE + rng.choice([0, 0, 100, -100])
+        t = max(0, base + rng.choice([0, 0, 100, -100]))
         for s in range(nsub):
             sub = t // 100 * 100
             sdname = _sd(sub)
@@ -217,7 +218,7 @@ def gen_tree(rng, big=False):
                 entries.append({"p": sdp + "/" + _sd(sub) + "/rf@%d.000.h5" % sub, "t": "f"})
             t += rng.choice([100, 100, 200, 700])
         if rng.random() < 0.3:
-            entries.append({"p": name + "/rf@%d.000.h5" % BASE, "t": "f"})  # data file directly in the channel dir
+            entries.append({"p": name + "/rf@%d.000.h5" % base, "t": "f"})  # data file directly in the channel dir
         if rng.random() < 0.2:
             entries.append({"p": name + "/tmp.drf_properties.h5", "t": "f"})
     # de-duplicate
@@ -248,6 +249,8 @@ def gen_windows(rng, entries, n):
     cands = [None, ts[0] - 5000, ts[-1] + 5000] + ts + [t + 1 for t in ts[:3]] + [t - 1 for t in ts[:3]] + \
             [(ts[i] + ts[i + 1]) // 2 for i in range(len(ts) - 1)][:4]
     out = [(None, None)]
+    if ts[0] == 0:
+        out += [(None, 0), (0, 0), (ts[0] - 5000, 0)][: rng.randrange(1, 4)]
     for _ in range(n):
         a, b = rng.choice(cands), rng.choice(cands)
         if a is not None and b is not None and b < a:
@@ -259,7 +262,8 @@ def gen_windows(rng, entries, n):
 def gen_plan(prop, tier, rng, i):
     if prop == "C18":
         return _gen_c18(rng, tier, i)
-    entries = gen_tree(rng, big=tier == "thorough")
+    # (one tree in twelve starts at the Unix epoch itself: file and window times of exactly 0)
+    entries = gen_tree(rng, big=tier == "thorough", base=0 if i % 12 == 7 else None)
     wins = gen_windows(rng, entries, 6 if tier == "quick" else 20)
     queries = []
     dirs = [""] + sorted(set(e["p"] for e in entries if e["t"] == "d" and not RE_SUBDIR.match(os.path.basename(e["p"]))))
@@ -502,7 +506,7 @@ def _gen_c18(rng, tier, i):
         while cfg.typical_capacity() > 200 and t < 30:
             cfg = M.gen_cfg(rng, {"maxcap": 60})
             t += 1
-        cfg.channel = "real%d" % c
+        cfg.channel = "real%d" % c if c == 0 or rng.random() < 0.5 else "real00"  # (a name that starts with another name)
         ops = M.gen_writes(rng, cfg, rng.randrange(1, 5), maxlen=max(2, 3 * cfg.typical_capacity()))
         ops = [o for o in ops if sum(len(cfg.files_of(a, a + n - 1)) for a, n in RN.op_samples(cfg, o)) <= 6][:4]
         if ops:
@@ -517,6 +521,10 @@ def _gen_c18(rng, tier, i):
         nested = sorted(set(os.path.dirname(e["p"]) for e in entries if e["p"].count("/") >= 2 and e["t"] == "f"
                             and not RE_SUBDIR.match(os.path.basename(os.path.dirname(e["p"])))))
         chs = rng.sample(top + nested[:3], min(len(top), rng.randrange(1, 3)))
+        pairs = [(a, b) for a in top for b in top if b != a and b.startswith(a) and not b.startswith(a + "/")]
+        if pairs and rng.random() < 0.5:
+            chs = list(rng.choice(pairs))
+            rng.shuffle(chs)
         # channel arguments must not contain one another (the transfers would overlap)
         chs = [c for c in chs if not any(o != c and (c + "/").startswith(o + "/") for o in chs)]
         # the channel option is free text: trailing slash (tab completion), ./ prefix, doubled slash, comma lists
